@@ -45,6 +45,8 @@ class _Visitor(ast.NodeVisitor):
         self.accesses = []      # (field, lineno, kind, ok)
         self.edges = []         # (lock_a, lock_b, lineno)
         self.calls_held = []    # (method, tuple(held), lineno)
+        self.calls_direct = []  # the same, calls inside nested functions / lambdas (which run later) left out
+        self.reacquired = []    # (lock, lineno): `with self.lock:` lexically inside `with self.lock:`
         self.raw_acquire = []
         self.block = [0]        # ids of the enclosing critical sections (0 = none); every `with` gets a fresh id
         self.nblocks = 0
@@ -53,6 +55,11 @@ class _Visitor(ast.NodeVisitor):
         self.foreign = []       # (attr, lineno, kind, ok, lock)
         self.reads_in = {}      # guarded field -> [(critical section id, enclosing ids, lineno)] where it was read
         self.split_claims = []  # (field, removal lineno, earlier read lineno)
+        self.alias = {}         # local name -> guarded field it is a live (uncopied) view of
+        self.decisions = []     # (guarded field, critical section id): an early exit was decided on that snapshot
+        self.if_taint = []      # taints of the enclosing `if` tests
+        self.check_then_act = []    # (field, lineno, decision block)
+        self.in_nested = 0
 
     # ---- read-modify-write of a guarded field must happen inside ONE critical section
     def _taint_of(self, expr):
@@ -64,7 +71,8 @@ class _Visitor(ast.NodeVisitor):
                 # snapshot taken in a separate critical section
                 self.ncalls = getattr(self, "ncalls", 0) + 1
                 for fld in self.method_reads[n.func.attr]:
-                    out.add((fld, -self.ncalls))
+                    # ... unless the caller already holds that field's lock: then it is part of the current section
+                    out.add((fld, self.block[-1] if self.spec.guarded[fld] in self.held else -self.ncalls))
             if isinstance(n, ast.Attribute) and isinstance(n.value, ast.Name) and n.value.id == "self" \
                     and n.attr in self.spec.guarded and isinstance(n.ctx, ast.Load):
                 out.add((n.attr, self.block[-1]))
@@ -72,18 +80,79 @@ class _Visitor(ast.NodeVisitor):
                 out |= self.taint.get(n.id, set())
         return out
 
-    def _assign(self, targets, value, lineno):
+    VIEWS = {"values", "keys", "items"}
+
+    def _live_view_of(self, e):
+        """guarded field that ``e`` is an uncopied reference to (the container itself or a dict view of it)"""
+        if isinstance(e, ast.Call) and isinstance(e.func, ast.Attribute) and e.func.attr in self.VIEWS and not e.args:
+            e = e.func.value
+        else:
+            if not (isinstance(e, ast.Attribute) and e.attr in getattr(self, "containers", ())):
+                e = None        # a bare reference is a live view only of a mutable container; scalars / frozen records are snapshots
+        if isinstance(e, ast.Attribute) and isinstance(e.value, ast.Name) and e.value.id == "self" and e.attr in self.spec.guarded:
+            return e.attr
+        return None
+
+    def visit_Name(self, node):
+        if isinstance(node.ctx, ast.Load) and node.id in self.alias:
+            fld = self.alias[node.id]
+            lock = self.spec.guarded[fld]
+            if lock not in self.held or self.in_nested:
+                self.accesses.append((fld, node.lineno, f"read-through-live-view:{node.id}", False))
+
+    @staticmethod
+    def _has_early_exit(stmts):
+        for s in stmts:
+            for n in ast.walk(s):
+                if isinstance(n, (ast.Return, ast.Continue, ast.Break, ast.Raise)):
+                    return True
+        return False
+
+    def visit_If(self, node):
+        t = {(f, b) for f, b in self._taint_of(node.test) if b != 0}
+        self.visit(node.test)
+        self.if_taint.append(t)
+        for s in node.body:
+            self.visit(s)
+        for s in node.orelse:
+            self.visit(s)
+        self.if_taint.pop()
+        if t and (self._has_early_exit(node.body) or self._has_early_exit(node.orelse)):
+            self.decisions.extend(t)
+
+    def _note_write(self, fld, lineno):
+        cur = self.block[-1]
+        pend = list(self.decisions)
+        for t in self.if_taint:
+            pend.extend(t)
+        for f2, blk in pend:
+            if f2 == fld and blk != cur and blk not in self.block:
+                self.check_then_act.append((fld, lineno, blk))
+                return
+
+    def _assign(self, targets, value, lineno, elementwise=False):
         t = self._taint_of(value)
+        live = None if elementwise else self._live_view_of(value)
         for tg in targets:
             if isinstance(tg, ast.Name):
-                self.taint[tg.id] = set(t)
+                if self.if_taint:
+                    # assigned on one branch only: the value after the join may still be the earlier one, and which one it
+                    # is depends on the test
+                    self.taint[tg.id] = self.taint.get(tg.id, set()) | set(t) | {x for ts in self.if_taint for x in ts}
+                else:
+                    self.taint[tg.id] = set(t)
+                if live is not None:
+                    self.alias[tg.id] = live
+                else:
+                    self.alias.pop(tg.id, None)
             elif isinstance(tg, (ast.Tuple, ast.List)):
-                self._assign(tg.elts, value, lineno)
+                self._assign(tg.elts, value, lineno, True)
             elif isinstance(tg, ast.Attribute) and isinstance(tg.value, ast.Name) and tg.value.id == "self" \
                     and tg.attr in self.spec.guarded:
                 for fld, blk in t:
                     if fld == tg.attr and blk != self.block[-1] and blk not in self.block:
                         self.stale_writes.append((fld, lineno, blk, self.block[-1]))
+                self._note_write(tg.attr, lineno)
 
     def visit_Assign(self, node):
         self._assign(node.targets, node.value, node.lineno)
@@ -95,7 +164,7 @@ class _Visitor(ast.NodeVisitor):
         self.generic_visit(node)
 
     def visit_For(self, node):
-        self._assign([node.target], node.iter, node.lineno)
+        self._assign([node.target], node.iter, node.lineno, True)
         self.generic_visit(node)
 
     def visit_With(self, node):
@@ -104,6 +173,8 @@ class _Visitor(ast.NodeVisitor):
             for h in self.held:
                 if h != lk:
                     self.edges.append((h, lk, node.lineno))
+                elif owner == "self":
+                    self.reacquired.append((lk, node.lineno))
         self.held.extend(lk for owner, lk in locks if owner == "self")
         self.nblocks += 1
         self.block.append(self.nblocks)
@@ -162,6 +233,7 @@ class _Visitor(ast.NodeVisitor):
         if isinstance(node.ctx, (ast.Store, ast.Del)) and isinstance(node.value, ast.Attribute) \
                 and isinstance(node.value.value, ast.Name) and node.value.value.id == "self" and node.value.attr in self.spec.guarded:
             self._stale_mutation(node.value.attr, [node.slice], node.lineno)
+            self._note_write(node.value.attr, node.lineno)
             if isinstance(node.ctx, ast.Del):
                 self._note_removal(node.value.attr, node.lineno)
         self.generic_visit(node)
@@ -179,10 +251,13 @@ class _Visitor(ast.NodeVisitor):
         if isinstance(f, ast.Attribute) and f.attr in self.MUTATORS and isinstance(f.value, ast.Attribute) \
                 and isinstance(f.value.value, ast.Name) and f.value.value.id == "self" and f.value.attr in self.spec.guarded:
             self._stale_mutation(f.value.attr, list(node.args) + [k.value for k in node.keywords], node.lineno)
+            self._note_write(f.value.attr, node.lineno)
             if f.attr in self.REMOVERS:
                 self._note_removal(f.value.attr, node.lineno)
         if isinstance(f, ast.Attribute) and isinstance(f.value, ast.Name) and f.value.id == "self":
             self.calls_held.append((f.attr, tuple(self.held), node.lineno))
+            if not self.in_nested:
+                self.calls_direct.append((f.attr, tuple(self.held), node.lineno))
         if isinstance(f, ast.Attribute) and f.attr in ("acquire", "release"):
             self.raw_acquire.append(node.lineno)
         self.generic_visit(node)
@@ -190,7 +265,9 @@ class _Visitor(ast.NodeVisitor):
     def visit_FunctionDef(self, node):      # nested functions: analysed with no lock held
         saved = self.held
         self.held = []
+        self.in_nested += 1
         self.generic_visit(node)
+        self.in_nested -= 1
         self.held = saved
 
     visit_Lambda = visit_FunctionDef
@@ -211,10 +288,19 @@ def check(repo, spec: LockSpec):
                 rd.add(n.attr)
         if rd and any(isinstance(n, ast.Return) and n.value is not None for n in ast.walk(fn)):
             method_reads[mname] = rd
+    containers = set()
+    if "__init__" in ci.methods:
+        for n in ast.walk(ci.methods["__init__"]):
+            val = n.value if isinstance(n, (ast.Assign, ast.AnnAssign)) else None
+            tgs = n.targets if isinstance(n, ast.Assign) else [n.target] if isinstance(n, ast.AnnAssign) else []
+            if isinstance(val, (ast.Dict, ast.List, ast.Set)) or (isinstance(val, ast.Call) and isinstance(val.func, ast.Name)
+                                                                  and val.func.id in ("dict", "list", "set", "deque", "OrderedDict", "defaultdict")):
+                containers |= {t.attr for t in tgs if isinstance(t, ast.Attribute)}
     for mname, fn in ci.methods.items():
         held0 = [spec.holds[mname]] if mname in spec.holds and spec.holds[mname] else []
         v = _Visitor(spec, mname, held0)
         v.method_reads = method_reads
+        v.containers = containers
         for s in fn.body:
             v.visit(s)
         per_method[mname] = v
@@ -224,6 +310,27 @@ def check(repo, spec: LockSpec):
                 for owner, lk in _with_locks(node):
                     if owner == "self":
                         acquires[mname].add(lk)
+    # locks a method acquires directly or through own methods it calls synchronously (closures / timer callbacks run later)
+    trans = {m: set(a) for m, a in acquires.items()}
+    trans_path = {(m, a): [m] for m, acq in acquires.items() for a in acq}
+    changed = True
+    while changed:
+        changed = False
+        for m, v in per_method.items():
+            for callee, _, _ in v.calls_direct:
+                for a in list(trans.get(callee, ())):
+                    if a not in trans[m]:
+                        trans[m].add(a)
+                        trans_path[(m, a)] = [m] + trans_path.get((callee, a), [callee])
+                        changed = True
+    reentrant = set()
+    init = ci.methods.get("__init__")
+    if init is not None:
+        for n in ast.walk(init):
+            if isinstance(n, ast.Assign) and isinstance(n.value, ast.Call) and "RLock" in ast.dump(n.value.func):
+                for tg in n.targets:
+                    if isinstance(tg, ast.Attribute):
+                        reentrant.add(tg.attr)
     # ownership obligations
     for ip in spec.init_phase:
         callers = [m for m, v in per_method.items() if any(c == ip for c, _, _ in v.calls_held)]
@@ -258,6 +365,30 @@ def check(repo, spec: LockSpec):
             out.append({"name": f"{spec.cls_qual}.{mname}/read-modify-write-in-one-critical-section", "line": 0,
                         "status": "proved", "kind": "ownership",
                         "detail": "no guarded field is assigned from a snapshot of itself taken in another critical section"})
+        for fld, line, blk in v.check_then_act:
+            out.append({"name": f"{spec.cls_qual}.{mname}/check-then-act-in-one-critical-section:{fld}", "line": line,
+                        "status": "refuted", "kind": "ownership",
+                        "detail": f"self.{fld} is written at line {line} in a critical section separate from the one in which the "
+                                  f"decision to proceed was taken on a snapshot of self.{fld}: two threads can both pass the test "
+                                  f"before either records it"})
+        for lk, line in v.reacquired:
+            if lk not in reentrant:
+                out.append({"name": f"{spec.cls_qual}.{mname}/no-self-deadlock:{lk}", "line": line, "status": "refuted",
+                            "kind": "lock-order", "detail": f"`with self.{lk}:` at line {line} is lexically inside `with self.{lk}:` and {lk} is not reentrant"})
+        nsd = 0
+        for callee, held, line in v.calls_direct:
+            for a in held:
+                if a in reentrant:
+                    continue
+                nsd += 1
+                if a in trans.get(callee, ()):
+                    out.append({"name": f"{spec.cls_qual}.{mname}/no-self-deadlock:{a}", "line": line, "status": "refuted",
+                                "kind": "lock-order",
+                                "detail": f"{callee}() is called at line {line} while the non-reentrant {a} is held and acquires {a} "
+                                          f"itself ({' -> '.join(trans_path.get((callee, a), [callee]))}): the calling thread blocks for ever"})
+        if nsd and not any(o["name"].startswith(f"{spec.cls_qual}.{mname}/no-self-deadlock") for o in out):
+            out.append({"name": f"{spec.cls_qual}.{mname}/no-self-deadlock", "line": 0, "status": "proved", "kind": "lock-order",
+                        "detail": f"{nsd} call(s) of own methods under a non-reentrant lock; none of the callees (transitively) acquires that lock"})
         if v.raw_acquire:
             out.append({"name": f"{spec.cls_qual}.{mname}/locks-only-by-with", "line": v.raw_acquire[0],
                         "status": "refuted", "kind": "ownership",
@@ -278,8 +409,8 @@ def check(repo, spec: LockSpec):
     for mname, v in per_method.items():
         for a, b, line in v.edges:
             edges.add((a, b, f"{mname}:{line}"))
-        for callee, held, line in v.calls_held:
-            for b in acquires.get(callee, ()):
+        for callee, held, line in v.calls_direct:
+            for b in trans.get(callee, ()):
                 for a in held:
                     if a != b:
                         edges.add((a, b, f"{mname}:{line}->{callee}"))
